@@ -94,6 +94,10 @@ class ChildErr(Exception):
     pass
 
 
+class DispBase(BaseException):
+    pass
+
+
 class LogCapture(logging.Handler):
     def __init__(self) -> None:
         super().__init__(level=logging.DEBUG)
@@ -145,6 +149,9 @@ class Disposable:
             await W.sched.gate(f"{self.owner}.d{self.idx}.exit")
         if how.endswith("raise"):
             self.exit_err = DispErr(f"{self.owner}.d{self.idx}.exit")
+            raise self.exit_err
+        if how.endswith("raise-base"):
+            self.exit_err = DispBase(f"{self.owner}.d{self.idx}.exit")
             raise self.exit_err
         return None
 
@@ -319,8 +326,21 @@ async def run_block(W: World, block: dict[str, Any], rng: random.Random | None) 
     async def body() -> None:
         W.block_phase[name] = "body"
         W.live[name] = (id(asyncio.current_task()), {t for t, _ in block["supply"]})
+        W.event("body-start", name)
         await run_steps(W, block["body"], rng)
         ex = (block.get("exit") or {}).get("kind", "return")
+        W.event("body-end", name, ex)
+        if ex == "cancel-self":
+            # an external-style cancellation: requested now, delivered at the next suspension point of the body
+            t = asyncio.current_task()
+            assert t is not None
+            t.cancel()
+            try:
+                await asyncio.sleep(0)
+            except asyncio.CancelledError as exc:
+                W.raised[name] = exc
+                raise
+            raise AssertionError("cancellation was not delivered to the body")
         if ex != "return":
             exc = make_exc(ex, name)
             W.raised[name] = exc
